@@ -1,17 +1,39 @@
 """python3-vt tools_baseline.py — record, per function under contract, the source hash and the obligations proved on the current
-(unchanged) tree.  Used only to tell a proof regression on CHANGED source (timeout where a proof used to exist) from a slow
-solver on unchanged source; committed, never written by the checks."""
-import json, os, sys
-sys.path.insert(0, os.path.dirname(os.path.abspath(__file__)))
+(unchanged) tree, and per property the hashes of the exact SMT queries that were proved.  Used only
+ (a) to tell a proof regression on CHANGED source (timeout where a proof used to exist) from a slow solver on unchanged source,
+ (b) to recognise an unstable E-matching run: a query whose text is identical to one proved here is never reported as failed.
+Committed, never written by the checks.  Every property runs in a process of its own, exactly as `./check <id>` does, so that
+the generated names (and hence the query hashes) are the same."""
+import json, os, subprocess, sys
+from concurrent.futures import ThreadPoolExecutor
+ROOT = os.path.dirname(os.path.abspath(__file__))
+CODE = """
+import json, sys
+sys.path.insert(0, %r)
 from pyvc import prover
-props = [json.loads(l)['id'] for l in open(os.path.join(os.path.dirname(os.path.abspath(__file__)), 'properties.jsonl'))]
-out = {}
-for p in props:
-    pr = prover.run_property(p, 'quick')
-    shas = {f['function']: f.get('sha256_16') for f in pr['functions']}
-    for fn, names in pr['proved_now'].items():
-        e = out.setdefault(fn, {'sha': shas.get(fn), 'proved': []})
-        e['proved'] = sorted(set(e['proved']) | set(names))
-    print(p, pr['n_discharged'], '/', pr['n_obligations'], 'failed', len(pr['failed']), 'unknown', len(pr['unknown']), 'unsupported', len(pr['unsupported']))
-json.dump(out, open(os.path.join(os.path.dirname(os.path.abspath(__file__)), 'baseline_obligations.json'), 'w'), indent=0, sort_keys=True)
-print(len(out), 'functions in baseline')
+pr = prover.run_property(sys.argv[1], 'quick')
+print('@@' + json.dumps({'proved_now': pr['proved_now'], 'hashes': pr['proved_hashes'], 'shas': {f['function']: f.get('sha256_16') for f in pr['functions']},
+                         'n': [pr['n_discharged'], pr['n_obligations'], len(pr['failed']), len(pr['unknown']), len(pr['unsupported'])]}))
+""" % ROOT
+props = [json.loads(l)['id'] for l in open(os.path.join(ROOT, 'properties.jsonl'))]
+
+
+def one(p):
+    r = subprocess.run(['python3-vt', '-c', CODE, p], capture_output=True, text=True, cwd=ROOT)
+    line = [l for l in r.stdout.split('\n') if l.startswith('@@')]
+    if not line:
+        raise SystemExit('baseline run of %s failed: %s' % (p, r.stderr[-500:]))
+    return p, json.loads(line[0][2:])
+
+
+out, hashes = {}, {}
+with ThreadPoolExecutor(3) as ex:
+    for p, d in ex.map(one, props):
+        hashes[p] = d['hashes']
+        for fn, names in d['proved_now'].items():
+            e = out.setdefault(fn, {'sha': d['shas'].get(fn), 'proved': []})
+            e['proved'] = sorted(set(e['proved']) | set(names))
+        print(p, '%d / %d failed %d unknown %d unsupported %d' % tuple(d['n']))
+out['__query_hashes__'] = hashes
+json.dump(out, open(os.path.join(ROOT, 'baseline_obligations.json'), 'w'), indent=0, sort_keys=True)
+print(len(out) - 1, 'functions in baseline')
